@@ -162,12 +162,17 @@ static std::vector<SlotRow> listSlots(bool sideEffectFree, CK_RV* prv) {
 	}
 	return rows;
 }
+static std::map<std::string, CK_SLOT_ID> gSlotCache;     // label prefix -> slot id of the last `t:` look-up (`c:<label>` re-uses it WITHOUT asking the library again)
 static CK_SLOT_ID slotArg(const std::string& s) {
+	if (s.rfind("c:", 0) == 0) {
+		std::map<std::string, CK_SLOT_ID>::iterator it = gSlotCache.find(s.substr(2));
+		return it == gSlotCache.end() ? 0x7fffffff : it->second;
+	}
 	if (s == "free" || s.rfind("t:", 0) == 0) {
 		CK_RV rv; std::vector<SlotRow> rows = listSlots(true, &rv);
 		for (size_t i = 0; i < rows.size(); i++) {
 			if (s == "free") { if (!rows[i].init) return rows[i].id; }
-			else if (rows[i].init && rows[i].label.rfind(s.substr(2), 0) == 0) return rows[i].id;
+			else if (rows[i].init && rows[i].label.rfind(s.substr(2), 0) == 0) { gSlotCache[s.substr(2)] = rows[i].id; return rows[i].id; }
 		}
 		return 0x7fffffff;   // no such slot
 	}
@@ -628,8 +633,10 @@ static void run(const std::vector<std::string>& t) {
 	else if (op == "findfinal") { CK_ULONG h = H(1); fprintf(out, "= %lu %lu\n", C_FindObjectsFinal(h), h); }
 	else if (op == "mechlist") {
 		CK_SLOT_ID sl = slotArg(t[1]); CK_ULONG n = 0; CK_RV rv = C_GetMechanismList(sl, NULL_PTR, &n);
-		std::vector<CK_MECHANISM_TYPE> v(n + 4); CK_ULONG n2 = n + 4; if (rv == CKR_OK) rv = C_GetMechanismList(sl, v.data(), &n2);
-		fprintf(out, "= %lu %lu %lu", rv, sl, rv == CKR_OK ? n2 : 0UL); if (rv == CKR_OK) for (CK_ULONG i = 0; i < n2; i++) fprintf(out, " %lx", v[i]); fprintf(out, "\n");
+		// the buffer has EXACTLY the announced number of entries (heap-allocated: one entry too many written is a sanitizer report)
+		CK_MECHANISM_TYPE* v = (CK_MECHANISM_TYPE*) malloc(n ? n * sizeof(CK_MECHANISM_TYPE) : 1); CK_ULONG n2 = n; if (rv == CKR_OK) rv = C_GetMechanismList(sl, v, &n2);
+		fprintf(out, "= %lu %lu %lu", rv, sl, rv == CKR_OK ? n2 : 0UL); if (rv == CKR_OK) for (CK_ULONG i = 0; i < n2 && i < n; i++) fprintf(out, " %lx", v[i]); fprintf(out, "\n");
+		free(v);
 	}
 	else if (op == "mechinfo") {
 		CK_SLOT_ID sl = slotArg(t[1]); CK_MECHANISM_INFO mi; memset(&mi, 0, sizeof(mi)); CK_RV rv = C_GetMechanismInfo(sl, strtoul(t[2].c_str(), NULL, 16), &mi);
